@@ -13,7 +13,8 @@ REQUIRED_THEOREMS = ['Props.C20.fit_trace', 'Props.C20.steps_count', 'Props.C20.
                      'Props.C20.stepOk_iff', 'Props.C20.stepOk_singleton', 'Props.C20.wellShaped_iff', 'Props.C20.grouping_admissible', 'Props.C20.accuracy_regroup_singletons', 'Props.C20.accuracy_batching_invariant',
                      'Props.C20.accuracy_batching_invariant_fit', 'Props.C20.epoch_loss_is_mean', 'Props.C20.accuracy_is_fraction_correct',
                      'Props.C20.history_one_entry_per_epoch', 'Props.C20.decode_binary', 'Props.C20.decode_argmax', 'Props.C20.decode_label',
-                     'Props.C20.wrap16_id', 'Props.C20.correct_of_int16_range', 'Props.C20.test_returns_all_samples']
+                     'Props.C20.wrap16_id', 'Props.C20.correct_of_int16_range', 'Props.C20.test_returns_all_samples',
+                     'Props.C20.refit_history_one_entry_per_epoch', 'Props.C20.session_fit_fresh', 'Props.C20.session_test_transparent']
 RULE = ('grid epochs 0..3 x train batches 0..3 x validation (none, 0, 1, 2 batches) x both callbacks x evaluator '
         '(off / 3 label modes) x initial training flag x initial grad mode x initial module tree consistent / with submodules switched on their own, run on the real Trainer with a model holding '
         'BatchNorm and Dropout, recording wrappers around model / optimizer / engine / Tensor.backward; quick samples the '
@@ -22,7 +23,11 @@ RULE = ('grid epochs 0..3 x train batches 0..3 x validation (none, 0, 1, 2 batch
         'batches of 0, 1 and 2..6 samples of different sizes, scores on scales 4 / 1024 / 2^24 crowded around the 0.5 threshold and full of ties, (B,) and (B,1) layouts) against evStep/evCompute/evReset; '
         '(hist) the real Trainer.fit on an identity model with a criterion returning planned dyadic losses, loaders whose batches differ in size, with/without validation/evaluator/callbacks, '
         'colliding callback metric names, non-float callback values, an evaluator handed over with leftovers, against fitHist: keys, entry counts, accuracy counts exactly, loss means within float rounding; '
-        'one epoch of 40 batches x 1000 samples (counters beyond int16); (histreal) real training (Linear + BCE/CE/MSE + SGD) with the per-batch losses, labels and outputs recorded by a wrapper and sent '
+        'one epoch of 40 batches x 1000 samples (counters beyond int16); '
+        '(sess) OBJECTS USED AGAIN: sessions of 4-12 calls on one or two Trainer objects and up to two Evaluator objects (shared between trainers, or none) over one model — fit again with the same / another number of epochs, with / without '
+        'the validation loader, fit -> test -> fit, compile again (same / other / no evaluator) in between, evaluator.step / compute / reset / state by the user between the calls (leftovers), the same loader objects handed to every call or new ones, '
+        'a fit that raises (no batches, non-float metric) followed by reset and another fit — against Call.run / session (driver: train ev sel, train sfit): every returned history is compared with the model, the dictionaries returned EARLIER must keep their '
+        'contents, every fit makes epochs x batches optimizer steps; (fit/again) the event-trace cases with a first call (fit with / without validation, test) made on the same Trainer before the recorded one; (histreal) real training (Linear + BCE/CE/MSE + SGD) with the per-batch losses, labels and outputs recorded by a wrapper and sent '
         'to the model as exact rationals / integers; (testret) what Trainer.test returns. Batches of ONE sample are part of every generator (finding F-C20-1, Evaluator.step raised on them, was repaired by fix a611d24), incl. Trainer.fit over the real DataLoader with batch_size=1 and an evaluator; ev sequences may end in a step the code still rejects (one score column in an arg-max mode, several output / label columns where one is needed).')
 EXHAUSTIVE = {'quick': False, 'thorough': True}
 ASSUMPTIONS = ['pkbar progress bar is stubbed (harness/stubs/pkbar.py)']
@@ -60,6 +65,10 @@ def cases(rng, tier):
     for c in list(grid):
         if c['e'] >= 1 and c['nv'] and (c['ct'], c['cv'], c['ev']) == (0, 0, None) and 'mix' not in c:
             grid.append(dict(c, gc=0))
+    # the Trainer object has been used before: one earlier call (fit without / with validation, test) on the SAME object
+    for c in list(grid):
+        if c['e'] >= 1 and c['nt'] >= 1 and c['g0'] == 1 and (c['ct'], c['cv']) == (0, 0) and not any(k_ in c for k_ in ('mix', 'peek', 'frz', 'gc')):
+            grid.append(dict(c, again=('fit', 'fitval', 'test')[(c['e'] + c['nt'] + (c['nv'] or 0) + c['tr0']) % 3]))
     tests = []
     for nb in range(4):
         for tr0 in (0, 1):
@@ -71,7 +80,7 @@ def cases(rng, tier):
         tests = rng.sample(tests, 40)
     if tier == 'quick':
         must = [c for c in grid if c['e'] == 2 and c['nt'] == 2 and c['ct'] == 1 and c['cv'] == 1 and c['tr0'] == 0 and c['g0'] == 1]
-        grid = must + rng.sample(grid, 220)
+        grid = must + rng.sample(grid, 220) + rng.sample([c for c in grid if c.get('again')], 24)
     out = grid + tests
     for _ in range(30 if tier == 'quick' else 300):
         n = rng.randint(1, 9)
@@ -220,6 +229,10 @@ def _run_fit(c):
             if any(not np.array_equal(a, b) for a, b in zip(before, after)):
                 pure[0] = False
     setattr(tr, vname, val)
+    if c.get('again'):
+        if c['again'] == 'test': tr.test(loader(1))
+        else: tr.fit(loader(2), 1, validation_loader=loader(1) if c['again'] == 'fitval' else None)
+        trace.clear(); losses.clear(); cleared[0] = True; pure[0] = True; ncb[0] = 0
     model.training = bool(c['tr0'])
     for m in model.submodules(): m.training = bool(c['tr0'])
     mix = c.get('mix', 0)
@@ -339,6 +352,8 @@ def distribution(cases):
             continue
         k = c['kind'] + ('/val' if c.get('nv') is not None else '') + ('/ev' if c.get('ev') else '')
         d[k] = d.get(k, 0) + 1
+        if c.get('again'):
+            d[f"fit on a Trainer used before ({c['again']})"] = d.get(f"fit on a Trainer used before ({c['again']})", 0) + 1
     return d
 
 
@@ -422,7 +437,7 @@ def oracle(c):
 # VALUES: the Evaluator as a state machine, and what the history of fit contains
 #   model: lean/SynapModel/TrainMetrics.lean, driver: `train ev …`, `train hist …`, `train testret …`
 # -------------------------------------------------------------------------------------------------
-VALUE_KINDS = ('ev', 'hist', 'histreal', 'testret')
+VALUE_KINDS = ('ev', 'hist', 'histreal', 'testret', 'sess')
 MODE_NAMES = ['binary', 'multi-class', 'categorical']
 # Finding F-C20-1 (Evaluator.step raised on a batch of ONE sample in every mode: `.squeeze()` dropped the batch axis) was a
 # genuine defect, repaired in /repo by fix a611d24 (every singleton axis except the batch axis is dropped).  One-sample batches
@@ -634,7 +649,198 @@ def _value_cases(rng, tier):
     out += [_gen_histreal(rng) for _ in range(24 if q else 240)]
     out += [_gen_histreal_dl(rng) for _ in range(12 if q else 80)]
     out += [_gen_testret(rng) for _ in range(8 if q else 40)]
+    out += [_gen_sess(rng, j) for j in range(40 if q else 400)]
     return out
+
+
+# ---- sessions: Trainer / Evaluator objects used again ----------------------------------------------------
+NO_EV_SLOT = 9          # a slot of the driver that is never filled: "compiled without an evaluator"
+
+
+def _gen_sess(rng, j=0):
+    """calls on one or two Trainers (one identity model, planned losses) and up to two Evaluators; one protocol line per op"""
+    mode = rng.pick(MODE_NAMES)
+    c = {'kind': 'sess', 'mode': mode, 'k': rng.randint(2, 4), 'scale': rng.pick([4, 1024]), 'shared_loaders': int(rng.chance(.5)), 'evs': [], 'ops': []}
+    for _ in range(rng.pick([1, 1, 2])):
+        c['evs'].append({'acc': int(rng.chance(.8)), 'ecb': rng.pick([None, None, None, 'm1:len', 'm1:dis,m2:wsum', 'loss:len']), 'scb': rng.pick([None, None, 's:dis'])})
+    ops = c['ops']
+    for ei in range(len(c['evs'])):
+        ops += [['sel', ei], ['evnew', ei]]
+    sizes = lambda: rng.pick([1, 1, 2, 2, 3, 4, 5])
+    def batches(nb):
+        out = []
+        for _ in range(nb):
+            labels, scores = _gen_batch(rng, mode, c['k'], c['scale'], sizes())
+            out.append([[rng.randint(0, 4096), 1024], labels, scores])
+        return out
+    def slot(ei): return NO_EV_SLOT if ei is None else ei
+    def pick_ev(): return rng.pick([None] + list(range(len(c['evs']))) * 3)
+    trainers = [pick_ev() if j % 4 else 0]               # trainer index -> evaluator index (or None)
+    ops.append(['trainer', 0, trainers[0]])
+    dirty = set()                                        # evaluators whose state the model does not know (a fit raised while using them)
+    nfit = 0
+    for step in range(rng.randint(4, 12)):
+        r = rng.random()
+        ti = rng.randrange(len(trainers))
+        ei = trainers[ti]
+        if r < 0.5 or (step < 2 and j % 2 == 0):
+            if ei in dirty:
+                ops += [['sel', ei], ['ev', ei, 'reset']]; dirty.discard(ei)
+            hv = int(rng.chance(.5))
+            E = rng.pick([0, 1, 1, 2, 2, 3])
+            eps = []
+            for _ in range(E):
+                nt = 0 if rng.chance(.04) else rng.randint(1, 3)
+                nv = 0 if rng.chance(.04) else rng.randint(1, 2)
+                eps.append({'train': batches(nt), 'val': batches(nv) if hv else []})
+            ops += [['sel', slot(ei)], ['fit', ti, hv, eps]]
+            nfit += 1
+            if any(not e['train'] or (hv and not e['val']) for e in eps) and ei is not None:
+                dirty.add(ei)
+        elif r < 0.6:
+            ops.append(['test', ti, [[x[1], x[2]] for x in batches(rng.randint(0, 3))]])
+        elif r < 0.7:
+            trainers[ti] = pick_ev()
+            ops.append(['compile', ti, trainers[ti]])
+        elif r < 0.76 and len(trainers) < 2:
+            trainers.append(pick_ev() if rng.chance(.5) else trainers[0])      # another Trainer, often sharing the evaluator
+            ops.append(['trainer', len(trainers) - 1, trainers[-1]])
+        elif c['evs']:
+            ei = rng.randrange(len(c['evs']))
+            if ei in dirty:
+                ops += [['sel', ei], ['ev', ei, 'reset']]; dirty.discard(ei)
+                continue
+            ops.append(['sel', ei])
+            q = rng.random()
+            if q < 0.45:
+                labels, scores = _gen_batch(rng, mode, c['k'], c['scale'], rng.pick([1, 2, 3]))
+                ops.append(['ev', ei, 'step', rng.pick([None, None, 'val']), labels, scores])
+            elif q < 0.7: ops.append(['ev', ei, 'compute', rng.pick([None, 'val'])])
+            elif q < 0.85: ops.append(['ev', ei, 'reset'])
+            else: ops.append(['ev', ei, 'state'])
+    # the session ends with one more fit on the first trainer (the "second stage")
+    ei = trainers[0]
+    if ei in dirty: ops += [['sel', ei], ['ev', ei, 'reset']]
+    hv = int(rng.chance(.5))
+    ops += [['sel', slot(ei)], ['fit', 0, hv, [{'train': batches(rng.randint(1, 3)), 'val': batches(rng.randint(1, 2)) if hv else []} for _ in range(rng.randint(1, 3))]]]
+    for ei in range(len(c['evs'])):
+        if ei not in dirty: ops += [['sel', ei], ['ev', ei, 'state']]
+    return c
+
+
+def _sess_lines(c):
+    L = []
+    for op in c['ops']:
+        if op[0] == 'sel': L.append(f'train ev sel {op[1]}')
+        elif op[0] == 'evnew':
+            e = c['evs'][op[1]]
+            L.append(f"train ev new {c['mode']} {c['scale']} {e['acc']} {e['ecb'] or '-'} {e['scb'] or '-'}")
+        elif op[0] in ('trainer', 'compile'): L.append(f'train ev sel {NO_EV_SLOT if op[2] is None else op[2]}')
+        elif op[0] == 'fit':
+            b = lambda x: f'{x[0][0]}:{x[0][1]}@{_rows(x[1])}@{_rows(x[2])}'
+            L.append(' '.join([f'train sfit {op[2]}'] + ['+'.join(b(x) for x in e['train']) + '|' + '+'.join(b(x) for x in e['val']) for e in op[3]]))
+        elif op[0] == 'test':
+            L.append('train testret ' + ('+'.join(f'{_rows(b[0])}@{_rows(b[1])}' for b in op[2]) or '_'))
+        elif op[2] == 'step': L.append(f"train ev step {op[3] or '-'} {_rows(op[4])} {_rows(op[5])}")
+        elif op[2] == 'compute': L.append(f"train ev compute {op[3] or '-'}")
+        elif op[2] == 'reset': L.append('train ev reset')
+        else: L.append('train ev state')
+    return L
+
+
+class _SetLoader:
+    """ONE loader object handed to every fit call of a session; `set` gives it the batches of the epochs to come"""
+    def __init__(self): self.per_epoch, self.i = [], -1
+    def set(self, per_epoch): self.per_epoch, self.i = per_epoch, -1
+    def __len__(self): return len(self.per_epoch[min(self.i + 1, len(self.per_epoch) - 1)]) if self.per_epoch else 0
+    def __iter__(self):
+        self.i += 1
+        return iter(self.per_epoch[self.i])
+
+
+def _run_sess(c):
+    """the session on the real objects.  Returns (one output per op, facts): facts['fits'] holds per fit call what the property
+    needs (returned history, snapshot, optimizer steps, whether it raised), facts['kept'] whether every dictionary returned
+    earlier still has the contents it was returned with"""
+    import copy
+    sg = common.impl()
+    from synapgrad import nn, optim
+    from synapgrad.nn.utils.train import Trainer, Evaluator
+    mode, k = c['mode'], c['k']
+    width = 1 if mode == 'binary' else k
+    lin = nn.Linear(width, width)
+    lin.weight.data[...] = np.eye(width, dtype=np.float32); lin.bias.data[...] = 0
+    queue, nsteps = [], [0]
+    def crit(out, lab):
+        v = np.float32(float(queue.pop(0)))
+        return (out * 0.0).sum() + sg.Tensor(v)
+    inner = optim.SGD(lin.parameters(), lr=0.1)
+    class Opt:
+        def zero_grad(self): inner.zero_grad()
+        def step(self): nsteps[0] += 1; inner.step()
+    def mk(bs):
+        return [tuple(reversed(_tensors(sg, mode, k, c['scale'], x[1], x[2], 1))) for x in bs]
+    evs = [Evaluator(epoch_callback=_mk_cb(e['ecb']), step_callback=_mk_cb(e['scb']), accuracy=bool(e['acc']), mode=mode) for e in c['evs']]
+    trainers, tl_shared, vl_shared = {}, _SetLoader(), _SetLoader()
+    returned = []          # (history object, deep copy at return time)
+    outs, fits, kept = [], [], True
+    for op in c['ops']:
+        try:
+            with common.quiet():
+                if op[0] in ('sel',):
+                    outs.append('ok')
+                elif op[0] == 'evnew':
+                    outs.append('ok')
+                elif op[0] == 'trainer':
+                    tr = Trainer(lin, sg)
+                    tr.compile(crit, Opt(), None if op[2] is None else evs[op[2]])
+                    trainers[op[1]] = tr; outs.append('ok')
+                elif op[0] == 'compile':
+                    trainers[op[1]].compile(crit, Opt(), None if op[2] is None else evs[op[2]]); outs.append('ok')
+                elif op[0] == 'fit':
+                    tr, hv, eps = trainers[op[1]], op[2], op[3]
+                    queue[:] = [Fraction(x[0][0], x[0][1]) for e in eps for x in (e['train'] + e['val'])]
+                    tl, vl = (tl_shared, vl_shared) if c['shared_loaders'] else (_SetLoader(), _SetLoader())
+                    tl.set([mk(e['train']) for e in eps]); vl.set([mk(e['val']) for e in eps])
+                    nsteps[0] = 0
+                    rec = {'raised': True, 'steps': 0, 'hist': None, 'n': None}
+                    fits.append(rec)
+                    try:
+                        hist = tr.fit(tl, len(eps), validation_loader=vl if hv else None)
+                    finally:
+                        rec['steps'] = nsteps[0]
+                    ev = tr.evaluator
+                    rec.update(raised=False, hist=copy.deepcopy(hist), n=len(ev.y_true) if ev is not None else 0)
+                    returned.append((hist, copy.deepcopy(hist)))
+                    outs.append(f"hist={_show_hist(hist)} n={rec['n']}")
+                elif op[0] == 'test':
+                    loader = [tuple(reversed(_tensors(sg, mode, k, 1, b[0], b[1], 1))) for b in op[2]]
+                    yp, yt = trainers[op[1]].test(loader)
+                    n = len(yt)
+                    if n == 0: outs.append('n=0 pred=_ true=_')
+                    else:
+                        yp, yt = np.asarray(yp).reshape(n, -1), np.asarray(yt).reshape(n, -1)
+                        outs.append(f'n={n} pred={_rows(yp.tolist())} true={_rows(yt.tolist())}')
+                else:
+                    ev = evs[op[1]]
+                    if op[2] == 'step':
+                        lab, o = _tensors(sg, mode, k, c['scale'], op[4], op[5], 0)
+                        m = ev.step(lab, o) if op[3] is None else ev.step(lab, o, prefix=op[3])
+                        outs.append(f'metrics={_show_metrics(m)} n={len(ev.y_true)}')
+                    elif op[2] == 'compute':
+                        m = ev.compute() if op[3] is None else ev.compute(prefix=op[3])
+                        outs.append(f'metrics={_show_metrics(m)} n={len(ev.y_true)}')
+                    elif op[2] == 'reset':
+                        ev.reset(); outs.append('ok')
+                    else:
+                        outs.append(f'ytrue={show_ints(ev.y_true)} ypred={show_ints(ev.y_pred)}')
+        except Exception:
+            outs.append('rejected')
+        for h_, snap in returned:          # a dictionary handed to the caller by an earlier call keeps its contents
+            if _show_hist(h_) != _show_hist(snap) or any(len(h_[k_]) != len(snap[k_]) for k_ in snap):
+                kept = False
+    assert np.array_equal(lin.weight.data, np.eye(width, dtype=np.float32))
+    return outs, {'fits': fits, 'kept': kept}
 
 
 def _hist_line(mode, scale, acc, ecb, scb, hasVal, pre, epochs):
@@ -658,6 +864,8 @@ def _vlines(c):
         return L
     if c['kind'] == 'hist':
         return [_hist_line(c['mode'], c['scale'], c['acc'], c['ecb'], c['scb'], c['hasVal'], c['pre'], c['epochs'])]
+    if c['kind'] == 'sess':
+        return _sess_lines(c)
     if c['kind'] == 'histreal':
         return ['train hist - 1 1 - - 0 _ _']          # replaced by impl(): the losses / outputs are those the run produced
     return ['train testret ' + ('+'.join(f'{_rows(b[0])}@{_rows(b[1])}' for b in c['batches']) or '_')]
@@ -844,6 +1052,12 @@ def _vimpl(c):
     if c['kind'] == 'testret':
         r = outcome(lambda: _run_testret(c))
         return [r]
+    if c['kind'] == 'sess':
+        outs, facts = _run_sess(c)
+        losses = [np.float32(x[0][0] / x[0][1]) for op in c['ops'] if op[0] == 'fit' for e in op[3] for x in e['train'] + e['val']]
+        c['_tol'] = _loss_tol(losses, 8)
+        c['_facts'] = {'kept': facts['kept'], 'steps': all(f['raised'] or f['steps'] == want for f, want in zip(facts['fits'], _sess_steps(c)))}
+        return outs
     if c['kind'] == 'hist':
         r = outcome(lambda: _run_hist(c))
         if r == 'rejected':
@@ -918,9 +1132,20 @@ def _match_line(m, i, tol):
     return False
 
 
+def _sess_steps(c):
+    return [sum(len(e['train']) for e in op[3]) for op in c['ops'] if op[0] == 'fit']
+
+
 def _vcompare(c, mo, io):
     tol = c.get('_tol', Fraction(0))
-    return [(k, m[:300], i[:300]) for k, (m, i) in enumerate(zip(mo, io)) if not _match_line(m, i, tol)]
+    d = [(k, m[:300], i[:300]) for k, (m, i) in enumerate(zip(mo, io)) if not _match_line(m, i, tol)]
+    if c['kind'] == 'sess':
+        fl = c.get('_facts', {})
+        if fl.get('kept') is False:
+            d.append(('kept', 'a history returned by an earlier call keeps its contents', 'changed by a later call'))
+        if fl.get('steps') is False:
+            d.append(('steps', 'every fit call makes epochs x batches optimizer steps', 'differs'))
+    return d
 
 
 def _vnontrivial(c):
@@ -930,6 +1155,8 @@ def _vnontrivial(c):
         return all(e['train'] and (e['val'] or not c['hasVal']) for e in c['epochs'])
     if c['kind'] == 'histreal':
         return True
+    if c['kind'] == 'sess':
+        return sum(1 for op in c['ops'] if op[0] == 'fit' and op[3]) >= 2
     return len(c['batches']) > 0
 
 
@@ -1047,6 +1274,63 @@ def _oracle_hist(c):
     return None
 
 
+def _oracle_sess(c):
+    """the property on the implementation alone: every legal fit call returns, with exactly its own keys, one entry per epoch of
+    THAT call, the epoch losses being the means of that call's batch losses (accuracy: the fraction of correct predictions, checked
+    when the evaluator was known to be empty when the call started); epochs x batches optimizer steps; dictionaries returned earlier
+    keep their contents"""
+    outs, facts = _run_sess(c)
+    trainers, state = {}, {}           # trainer -> evaluator index ; evaluator -> 'empty' | 'unknown'
+    for ei in range(len(c['evs'])): state[ei] = 'empty'
+    fi = 0
+    tol = _loss_tol([np.float32(x[0][0] / x[0][1]) for op in c['ops'] if op[0] == 'fit' for e in op[3] for x in e['train'] + e['val']], 8)
+    for oi, (op, out) in enumerate(zip(c['ops'], outs)):
+        if op[0] in ('trainer', 'compile'):
+            trainers[op[1]] = op[2]
+        elif op[0] == 'ev':
+            if op[2] in ('compute', 'reset'): state[op[1]] = 'empty'
+            elif op[2] == 'step': state[op[1]] = 'unknown'
+        elif op[0] == 'fit':
+            rec = facts['fits'][fi]; fi += 1
+            ei, hv, eps = trainers[op[1]], op[2], op[3]
+            e_ = c['evs'][ei] if ei is not None else None
+            evkeys = ((['accuracy'] if e_['acc'] else []) + _cb_names(e_['ecb'])) if e_ else []
+            keys = ['loss'] + evkeys + ((['val_loss'] + ['val_' + k_ for k_ in evkeys]) if hv else [])
+            legal = all(e['train'] and (e['val'] or not hv) for e in eps)
+            started_empty = ei is None or state[ei] == 'empty'
+            if ei is not None and (eps or rec['raised']):      # (a fit over no epochs does not touch the evaluator)
+                state[ei] = 'empty' if (legal and not rec['raised']) else 'unknown'
+            if len(set(keys)) != len(keys):
+                continue               # a callback metric named like another metric: outside the property
+            nth = f'fit call no. {fi} of the session (op {oi}, {len(eps)} epoch(s), {"with" if hv else "without"} validation loader, trainer {op[1]})'
+            if rec['raised']:
+                if legal: return _vfail(c, 'rejected', f'{nth} raised on a legal configuration')
+                continue
+            hist, E = rec['hist'], len(eps)
+            got = {k_: len(v) for k_, v in hist.items()}
+            if (E and list(hist.keys()) != keys) or any(v != E for v in got.values()) or (E == 0 and got):
+                return _vfail(c, 'history', f'{nth} returned a history with entries {got}; expected exactly one per epoch of THIS call ({E}) for the keys {keys if E else []}')
+            if rec['steps'] != sum(len(e['train']) for e in eps):
+                return _vfail(c, 'steps', f"{nth} made {rec['steps']} optimizer steps for {[len(e['train']) for e in eps]} training batches per epoch")
+            for e_i, e in enumerate(eps):
+                for part, pre in (('train', ''), ('val', 'val_')):
+                    if part == 'val' and not hv: continue
+                    ls = [Fraction(x[0][0], x[0][1]) for x in e[part]]
+                    v = float(hist[pre + 'loss'][e_i])
+                    if not math.isfinite(v) or abs(Fraction(v) - sum(ls) / len(ls)) > tol:
+                        return _vfail(c, 'lossmean', f'{nth}, epoch {e_i}: {pre}loss {v}, mean of the {len(ls)} batch losses of that epoch {float(sum(ls) / len(ls))}')
+                    if e_ and e_['acc'] and (started_empty or e_i > 0 or part == 'val'):
+                        yt = [_py_true(c['mode'], l) for x in e[part] for l in x[1]]
+                        yp = [_py_pred(c['mode'], c['scale'], s_) for x in e[part] for s_ in x[2]]
+                        correct = sum(1 for a, b in zip(yt, yp) if a == b)
+                        v = float(hist[pre + 'accuracy'][e_i])
+                        if v != correct / len(yt):
+                            return _vfail(c, 'accuracy', f'{nth}, epoch {e_i}: {pre}accuracy {v}, but {correct} of the {len(yt)} predictions of the epoch are correct')
+    if not facts['kept']:
+        return _vfail(c, 'kept', 'a history dictionary returned by an earlier fit call was changed by a later call on the same objects')
+    return None
+
+
 def _voracle(c):
     if c['kind'] == 'hist' and c.get('epochs') == 'regenerate: large epoch':
         return None
@@ -1054,6 +1338,8 @@ def _voracle(c):
         return _oracle_ev(c)
     if c['kind'] in ('hist', 'histreal'):
         return _oracle_hist(c)
+    if c['kind'] == 'sess':
+        return _oracle_sess(c)
     r = outcome(lambda: _run_testret(c))
     if r == 'rejected':
         return _vfail(c, 'rejected', 'Trainer.test raised')
